@@ -167,6 +167,16 @@ func legacyEncodings() []enc {
 		}
 		out = append(out, enc{Bytes: string(c), Proto: "legacy", Form: "byte-nonascii", W: w})
 	}
+	// keys whose text is one grapheme cluster of several code points: the
+	// key code is the first code point, the text the whole cluster
+	for _, g := range []string{"e\u0301", "E\u0301", "\u2764\ufe0f", "\U0001F1FA\U0001F1F8", "\U0001F469\u200d\U0001F680", "\U0001F44D\U0001F3FD", "n\u0303\u0301", "\u0424\u0301"} {
+		c := []rune(g)[0]
+		w := want{Keycode: c, Text: g}
+		if unicode.IsUpper(c) {
+			w = want{Keycode: unicode.ToLower(c), Shifted: c, Mods: mShift, Text: g}
+		}
+		out = append(out, enc{Bytes: g, Proto: "legacy", Form: "cluster", W: w})
+	}
 	// C0
 	for c := rune(0); c < 0x20; c++ {
 		var w want
@@ -204,8 +214,8 @@ func legacyEncodings() []enc {
 		// 0x20-0x2F after ESC are intermediates of an escape sequence that
 		// is still incomplete: Alt+punctuation is not expressible in legacy
 		switch c {
-		case 'O', 'P', 'X', '[', ']', '^', '_', '\\':
-			continue // introducers (and ST)
+		case 'O', 'P', 'X', '[', ']', '^', '_':
+			continue // introducers
 		}
 		code := c
 		chord := ""
@@ -474,6 +484,18 @@ func (c check) Run(w *harness.W, b harness.Batch) {
 		}
 	}
 	_ = r
+	// history independence: control strings cut short by a key report (a
+	// reply interrupted by typing) are interleaved; their own events are not
+	// judged, every key after them must decode as it does in isolation
+	contexts := []string{"\x1b]11;rgb:10\x1b[A", "\x1bP1$r0\x1bx", "\x1b_Gi=1\x1bOA", "\x1bXso\x1b[1;5B", "\x1b^pm\x1b[97u"}
+	var withCtx []enc
+	for i, e := range mine {
+		if i%7 == 3 {
+			withCtx = append(withCtx, enc{Bytes: contexts[(i/7)%len(contexts)], Proto: "legacy", Form: "context"})
+		}
+		withCtx = append(withCtx, e)
+	}
+	mine = withCtx
 	const group = 60
 	for off := 0; off < len(mine); off += group {
 		end := off + group
@@ -492,6 +514,10 @@ func (c check) Run(w *harness.W, b harness.Batch) {
 			return
 		}
 		for i, e := range mine[off:end] {
+			if e.Form == "context" {
+				w.Count("interrupted_control_strings_interleaved", 1)
+				continue
+			}
 			w.Case("enc|" + e.Bytes)
 			w.Count("encodings_"+e.Proto, 1)
 			w.Distinct("forms", e.Form)
